@@ -97,6 +97,21 @@ def run(run: common.Run):
     ph, pw = fusion.proc_window_shape(src, ref, proc_ref)
     global MBM
     MBM = [100, fusion.block_mem_for(3, ph, pw, src.px, ref.px, proc_ref)]
+    # the blocks must stay larger than the widest kernel's overlap (BlockSizeError otherwise): fewer halvings if need be
+    from homonim.errors import BlockSizeError
+    for hv in (3, 2, 1):
+        MBM[1] = fusion.block_mem_for(hv, ph, pw, src.px, ref.px, proc_ref)
+        try:
+            for k in range(3):
+                d = tmp / f'probe{hv}_{k}'
+                shutil.copytree(base, d)
+                with warnings.catch_warnings():
+                    warnings.simplefilter('ignore')
+                    with RasterFuse(d / pair.src_path.name, d / pair.ref_path.name) as rf:
+                        api_call(rf, d, dict(cfg=k, mbm=1, out='o.tif', param=False, overwrite=False, as_str=False))
+            break
+        except BlockSizeError:
+            continue
     # fresh-run signatures per (cfg, block memory)
     fresh = {}
     for k in range(3):
